@@ -119,6 +119,23 @@ def r2_mode_reaches_solver(ctx, chk, rule="C12.2"):
     mode = ("elem", Li.id)
     ok = False
     detail = show(c)[:140]
+    if splat and splat[0][0] == "dict":
+        # {**copy, "prune_states": mode} / {"prune_states": mode, **copy}: in a dict display the later entry wins
+        flagp = shared.solver_names(ctx)["flag_param"]
+        items = list(splat[0][1])
+        pos_flag = [i for i, (k_, v_) in enumerate(items) if k_ == C(flagp)]
+        pos_splat = [i for i, (k_, v_) in enumerate(items) if k_ == C(None) or k_ is None]
+        if len(pos_flag) == 1 and len(pos_splat) == 1 and items[pos_flag[0]][1] == mode:
+            cp = items[pos_splat[0]][1]
+            faithful = cp[0] == "call" and cp[1] in ("copy.deepcopy",) and cp[2] and cp[2][0][0] in ("idx", "elem", "v")
+            if pos_flag[0] < pos_splat[0]:
+                chk.violation(rule, s.f.where(Li.node), "the game handed to the solver is {'%s': <mode>, **<description>}: the later entry of a dict display wins, so a `%s` key that the description "
+                              "itself carries (a file that has it, a dictionary a previous run left it in) overrides the mode of the pass" % (flagp, flagp),
+                              expected="{**<copy of the description>, '%s': <mode>}" % flagp, found=show(splat[0])[:140], construct="run_games mode overridden by the description")
+                return
+            if faithful:
+                chk.ok(rule, s.f.where(Li.node), "the game handed to StochasticGame is a deep copy of the description with prune_states = the mode loop variable written last")
+                return
     if splat:
         d = splat[0]
         inner = d[2][0] if d[0] == "call" and d[1] in ("copy.deepcopy", "copy.copy", "dict") and d[2] else d
